@@ -6,6 +6,7 @@ Import ListNotations.
 Require Pauli Span Tab Flow Adj AdjGen TableAdj GenProofs_RevMeas.
 Require Import Stab Spec SpecProofs GF2 Act Gen_GateTable Gen_RevTrack GenProofs_RevTrack.
 Require GenProofs_TabMeas.
+Require Sem Refine FrameProg RevProg RevFlow.
 
 (* flows of a Clifford map are closed under products, signs included: products of generators are flows (any n) *)
 Theorem C14_flows_closed_under_product :
@@ -60,3 +61,20 @@ Theorem C14_pair_measurement_segments_measure_the_product : GenProofs_TabMeas.se
 Proof. exact GenProofs_TabMeas.tracker_pair_segments_ok. Qed.
 Print Assumptions C14_pair_measurement_segments_measure_the_product.
 
+
+(* Unsigned flows on whole adaptive programs: walking an end observable Send backwards (multiplied by M at flagged measurements,
+   flags toggled by later anticommuting feedback, pulled back through Cliffords) gives S0 with, for every frame F put in front of
+   the program, every earlier flips and every randomisation:
+     [F_end, Send] xor (parity of the flagged flips) = [F, S0] xor (pending toggles . earlier flips) xor (anticommuting external Paulis).
+   A Pauli error before the program changes "Send times the flagged results" exactly when it anticommutes with S0: the circuit has
+   the unsigned flow S0 -> Send xor rec[flags], which is what the reverse tracker behind time reversal and the flow-generator
+   solver computes. *)
+Theorem C14_unsigned_flow_closed_form :
+  forall (n : nat) (extr exta : nat -> bool) (Send : Pauli.pauli), Refine.wf n Send ->
+  forall (prog : list FrameProg.pop) (F : Pauli.pauli) (fl zs d : list bool),
+  Forall (FrameProg.okp n) prog -> Refine.wf n F -> RevFlow.gauge_okf Send prog d ->
+  RevFlow.fparf extr exta Send F fl zs prog d =
+  xorb (xorb (Sem.acom F (fst (RevFlow.btf Send prog d))) (RevProg.dotp (snd (RevFlow.btf Send prog d)) fl))
+       (RevFlow.ext_parf extr exta Send prog d).
+Proof. exact RevFlow.flow_closed_form. Qed.
+Print Assumptions C14_unsigned_flow_closed_form.
